@@ -146,17 +146,13 @@ class SharedMemoryFileBufferedCollection(FileBufferedCollection):
                         # metadata after the current flush.
                         cached_data["metadata"] = self._get_file_metadata()
                         cached_data["modified"] = False
-        else:
-            # If this object is still buffered _and_ this wasn't a force flush,
-            # that implies a nesting of buffered contexts in which another
-            # collection pointing to the same data flushed the buffer. This
-            # object's data will still be pointing to that one, though, so the
-            # safest choice is to reinitialize its data from scratch.
-            with self._suspend_sync:
-                self._data = {
-                    key: self._from_base(data=value, parent=self)
-                    for key, value in self._to_base().items()
-                }
+        # If this object is still buffered _and_ this wasn't a force flush, then
+        # its own ``buffered`` context was exited inside a backend-wide buffered
+        # context. The backend-wide context keeps every collection of this
+        # class buffered, so nothing has been flushed and this object's data
+        # must remain the (shared) data stored in the buffer: replacing it
+        # would detach nested collections handed out earlier and any other
+        # collection sharing the buffered data.
 
     def _load(self):
         """Load data from the backend but buffer if needed.
